@@ -56,8 +56,24 @@ func (l *Listener) Accept() (net.Conn, error) {
 	}
 }
 
-// Close implements net.Listener.
-func (l *Listener) Close() error { l.once.Do(func() { close(l.done) }); return nil }
+// Close implements net.Listener. Connections that were dialled but never
+// accepted are closed, as a kernel does with its accept queue.
+func (l *Listener) Close() error {
+	l.once.Do(func() { close(l.done) })
+	l.drain()
+	return nil
+}
+
+func (l *Listener) drain() {
+	for {
+		select {
+		case c := <-l.ch:
+			c.Close()
+		default:
+			return
+		}
+	}
+}
 
 // Addr implements net.Listener.
 func (l *Listener) Addr() net.Addr { return addr(l.addr) }
@@ -92,6 +108,11 @@ func (l *Listener) Dial(capacity int, prep func(server *vh.PipeConn)) (client, s
 	}
 	select {
 	case l.ch <- server:
+		select {
+		case <-l.done:
+			l.drain() // lost the race with Close: nobody will accept it
+		default:
+		}
 		return client, server, nil
 	case <-l.done:
 		return nil, nil, errors.New("tunx: listener closed")
